@@ -112,9 +112,11 @@ def build_morphed(m: Dict[str, Any], aspects=('names', 'types', 'settings', 'ref
             if r['name']:
                 r['name'] = r['name'] + '_old'
         if refs:
-            # the other direction and the other inline-ness: which table holds the key, and where, starts out different
-            r['type'] = {'>': '<', '<': '-', '-': '>', '<>': '<>'}[r['type']]       # a bijection: distinct references stay distinct
-            r['inline'] = not r['inline']
+            # another kind and the other inline-ness: which table holds the key, and where, starts out different; a reference
+            # that ends up many-to-many starts out as an INLINE one of another kind (and its flag is then left alone, as a
+            # user converting it would leave it: the flag has no meaning for many-to-many)
+            r['inline'] = True if r['type'] == '<>' else not r['inline']
+            r['type'] = {'>': '<', '<': '-', '-': '<>', '<>': '>'}[r['type']]       # a bijection: distinct references stay distinct
     db = build(old, **db_kwargs)
     for kind in ('sql', 'dbml'):
         try:
@@ -141,5 +143,8 @@ def build_morphed(m: Dict[str, Any], aspects=('names', 'types', 'settings', 'ref
         E.name = dec(e['name'])
     for R, r in zip(db.refs, m['refs']):
         R.on_update, R.on_delete, R.name = _opt(r['onupdate']), _opt(r['ondelete']), _opt(r['name'])
-        R.type, R.inline = dec(r['type']), r['inline']
+        if 'refs' in aspects:
+            R.type = dec(r['type'])
+            if r['type'] != '<>':
+                R.inline = r['inline']
     return db
